@@ -98,7 +98,12 @@ type rec struct {
 	socks  int
 }
 
-type listener struct{ calls []rec }
+type listener struct {
+	calls []rec
+	// choose: what OnError returns is an environment choice (the documentation gives the return value
+	// no meaning for the delivery of later datagrams); otherwise it returns true
+	choose bool
+}
 
 func (l *listener) OnConnected() {
 	l.calls = append(l.calls, rec{kind: "connected", socks: len(vs.Net().OpenSockets())})
@@ -108,6 +113,9 @@ func (l *listener) OnEvent(s *types.Status) {
 }
 func (l *listener) OnError(err error) bool {
 	l.calls = append(l.calls, rec{kind: "error"})
+	if l.choose {
+		return vs.Choose(2, "OnError-returns") == 0
+	}
 	return true
 }
 
@@ -126,7 +134,7 @@ func scenario(name string, seq []string, stopAfter int, senders int, bound int, 
 		vs.Net().Env = &farm.Farm{}
 		u := uhppote.NewUHPPOTE(types.BindAddr{}, types.BroadcastAddr{}, types.ListenAddrFrom(netip.MustParseAddr("0.0.0.0"), lport), T, nil, false)
 		for c := 0; c < cycles; c++ {
-			r := &run{l: &listener{}}
+			r := &run{l: &listener{choose: bound == 0}}
 			runs = append(runs, r)
 			base := vs.NowNs()
 			_ = base
@@ -355,7 +363,7 @@ func main() {
 	if r.Worker == "" && r.Replay == "" {
 		e1.Conformance(r)
 	}
-	r.Rule(fmt.Sprintf("(a) every datagram-class sequence of length <= %d over %d classes x stop signal after every prefix x 1-2 senders, preemption bound 0; (b) every sequence of length <= %d over {valid, v6.62, malformed} x stop after every prefix under ALL interleavings (no preemption bound), and as a burst (datagrams and stop signal in one instant) under ALL interleavings for length 1 (thorough: length <= 2) and with <= %d preemptions beyond; (c) two consecutive Listen runs on the same address under all interleavings; (d) 12-event sequences (burst and spaced, valid and mixed) with at most 2 non-default scheduling choices of any kind. distinct = distinct (datagrams read, events, errors) labels", contentLen, len(classes), schedLen, schedBound))
+	r.Rule(fmt.Sprintf("(a) every datagram-class sequence of length <= %d over %d classes x stop signal after every prefix x 1-2 senders x OnError returning true / false (an environment choice per error), preemption bound 0; (b) every sequence of length <= %d over {valid, v6.62, malformed} x stop after every prefix under ALL interleavings (no preemption bound), and as a burst (datagrams and stop signal in one instant) under ALL interleavings for length 1 (thorough: length <= 2) and with <= %d preemptions beyond; (c) two consecutive Listen runs on the same address under all interleavings; (d) 12-event sequences (burst and spaced, valid and mixed) with at most 2 non-default scheduling choices of any kind. distinct = distinct (datagrams read, events, errors) labels", contentLen, len(classes), schedLen, schedBound))
 	r.Assume("a datagram counts as received when a read on the listen socket returned it (datagrams still queued when the socket is closed were never received)")
 	r.Assume("calendar-invalid (but BCD) timestamps are outside the alphabet: the library documents decoding them as 'no value'")
 	r.Finish()
